@@ -45,9 +45,12 @@ _POLARS_TY = {
 
 
 class PolarsSem:
-    def __init__(self, scans, *, str_len=4):
-        """scans: list of (df_key(tuple of ints), Rel)"""
+    def __init__(self, scans, *, str_len=4, collected=(), sql_tables=None):
+        """scans: list of (df_key(tuple of ints), Rel); collected: frames produced by
+        collect() during the build: (df_key, ('plan', json) | ('sql', text), names)"""
         self.scans = scans
+        self.collected = list(collected)
+        self.sql_tables = sql_tables or {}
         self.side = []  # side constraints (fresh tie-breakers distinct, ...)
         self.notes = []  # unspecified-order notes
         self.str_len = str_len
@@ -68,6 +71,25 @@ class PolarsSem:
         key = tuple(b["df"])
         for k, rel in self.scans:
             if k == key:
+                return rel.copy()
+        for k, stage, names in self.collected:
+            if k == key:
+                # a frame produced by collect(): bound to the symbolic result of the
+                # pipeline that was collected (DESIGN.md 3, C16)
+                kind, art = stage
+                if kind == "plan":
+                    rel = self.plan(art)
+                else:
+                    from .sem_sqlite import SqliteSem
+
+                    sub = SqliteSem(self.sql_tables, str_len=self.str_len)
+                    rel = sub.run(art)
+                    self.side += sub.side
+                    self.notes += sub.notes
+                    self.constructs |= sub.constructs
+                self.constructs.add("plan:DataFrameScan(collected)")
+                if list(rel.names) != list(names):
+                    raise Unsupported("collected frame schema differs from the stage-1 artefact")
                 return rel.copy()
         raise Unsupported("unknown DataFrameScan")
 
